@@ -421,9 +421,11 @@ impl Typer {
             _ => self.infer_expr(genv, local_env, diagnostics, e),
         };
 
+        // The dyn coercion is stored next to the expression and re-applied on top of it when
+        // the typed tree is built, so the type recorded for `e` is the uncoerced one.
+        self.record_expr_result(e, &expr_tast);
         let expr_tast = self.coerce_to_expected_dyn(genv, diagnostics, e, expr_tast, expected);
         self.push_constraint(Constraint::TypeEqual(expr_tast.get_ty(), expected.clone()));
-        self.record_expr_result(e, &expr_tast);
         expr_tast
     }
 
